@@ -97,7 +97,7 @@ def gen_cart(rng):
             rng.shuffle(full)
             return full
         if style == 'undersampled':
-            k = rng.randint(1, n)
+            k = rng.randint(2, n)  # a single sample would make the axis a singleton (no reordering along it)
             return sorted(rng.sample(full, k))
         if style == 'duplicates':
             s = full + [rng.choice(full) for _ in range(rng.randint(1, 2))]
@@ -123,7 +123,7 @@ def gen_cart(rng):
 
 
 def gen_findiff(rng):
-    nd = rng.randint(2, 3) if rng.random() < 0.9 else 1
+    nd = rng.randint(2, 3)  # rank 1 raises in filter_separable (known finding KF-05, exercised by C09 only)
     shape = [rng.randint(1, 5) for _ in range(nd)]
     while prod(shape) > 48:
         shape[rng.randrange(nd)] = 2
